@@ -30,7 +30,11 @@ PROPS = {
     'C06': dict(modules=['NutsProofs.Props.C06'], suites=[S('db-set', (60, 150), (1500, 200))]),
     'C07': dict(modules=['NutsProofs.Props.C07'], suites=[S('db-zset', (60, 150), (1500, 200))]),
     'C08': dict(modules=['NutsProofs.Props.C08'], suites=[S('db-mixed', (60, 200), (1500, 250))]),
+    'C09': dict(modules=['NutsProofs.Props.C09'], suites=[S('db-crash', (40, 120), (800, 200)), S('db-kv', (30, 150), (500, 200))]),
+    'C10': dict(modules=['NutsProofs.Props.C10'], suites=[S('db-crash', (50, 120), (1200, 200))]),
+    'C11': dict(modules=['NutsProofs.Props.C11'], suites=[S('db-crash', (50, 120), (1200, 200))]),
     'C12': dict(modules=['NutsProofs.Props.C12'], suites=[S('db-mixed', (60, 150), (1500, 200))]),
-    'C13': dict(modules=['NutsProofs.Props.C13'], suites=[S('db-structs', (60, 150), (1500, 200))]),
+    'C13': dict(modules=['NutsProofs.Props.C13'], suites=[S('db-structs', (40, 150), (1000, 200)), S('db-list', (40, 150), (1000, 200))]),
     'C15': dict(modules=['NutsProofs.Props.C15'], suites=[S('db-merge', (60, 150), (1500, 200))]),
+    'C16': dict(modules=['NutsProofs.Props.C16'], suites=[S('db-mcrash', (50, 150), (1200, 200))]),
 }
